@@ -23,6 +23,9 @@ type c10Params struct {
 	Shard   int     `json:"shard"`
 	NShards int     `json:"nshards"`
 	Sched   int     `json:"sched,omitempty"`
+	// Keys: the client-side stop is typed — Ctrl-C (the product pauses the transfer and opens its menu), the
+	// answer 300 ms later — instead of calling StopTransferringFiles
+	Keys bool `json:"keys,omitempty"`
 }
 
 // completedFiles counts the MD5 acknowledgements the receiver sent: 16-byte digests in #SUCC: lines.
@@ -255,6 +258,9 @@ func c10Run(j vs.Job) *vs.JobResult {
 		}
 		wp := p.W
 		wp.Stop = &wStop{Side: p.Side, Delete: p.Delete, Step: step}
+		if p.Keys {
+			wp.Stop.Via = "keys"
+		}
 		exec := func(prefix, prefixN []int, trace bool) *vs.ExecResult {
 			w, res := runWorld(wp, vs.Config{Trace: trace, ClockChoice: p.Sched > 0}, prefix, prefixN, nil)
 			v, o := c10Oracle(w, res)
@@ -302,7 +308,7 @@ func init() {
 		Level: "model_checking",
 		Rule: "the stop (client keep / client delete / server SIGINT) is delivered atomically just before every scheduler step of the default schedule of a transfer (every moment between two synchronisation or I/O operations of any goroutine on either side), " +
 			"for every scenario = direction x tree (3-chunk file, files, directory as entries, directory as archive) x destination (empty / pre-populated incl. a file -y is replacing) x protocol; thorough: x every single schedule deviation after the stop",
-		Assumptions: []string{"stop on the client = the exported StopTransferringFiles (what the prompt's choices call); stop on the server = stopTransferringFiles(false) (the signal handler's body)",
+		Assumptions: []string{"stop on the client = the exported StopTransferringFiles, and, in the 'keys' jobs, a typed Ctrl-C answered 300 ms later through the product's own menu handler (the menu library itself is a model: rule R14); stop on the server = stopTransferringFiles(false) (the signal handler's body)",
 			"the bound asserted is cleanTimeout of the stopping side (read from its transfer) + 2 s; maxima observed are reported", "completed files = files whose MD5 the receiver acknowledged on the wire before the end"},
 		TraceNote:   "explored directly on the implementation; the number counts executions replayed from recorded choice lists (determinism guard and 5x violation replays)",
 		QuickBudget: 110, ThoroughBudget: 1500, DiedIsViolation: true,
@@ -341,6 +347,12 @@ func init() {
 				n := 4
 				for k := 0; k < n; k++ {
 					jobs = append(jobs, vs.MkJob(fmt.Sprintf("%s side=%s delete=%v %d/%d", s.w.String(), s.side, s.delete, k, n), c10Params{W: s.w, Side: s.side, Delete: s.delete, Shard: k, NShards: n}))
+				}
+				// the same stop as the user makes it: Ctrl-C on the keyboard, the transfer paused while the menu is open, then the answer
+				if s.side == "client" && (tier == "thorough" || s.w.DstPre == "" || s.w.HashStep > 0) {
+					for k := 0; k < n; k++ {
+						jobs = append(jobs, vs.MkJob(fmt.Sprintf("keys %s side=%s delete=%v %d/%d", s.w.String(), s.side, s.delete, k, n), c10Params{W: s.w, Side: s.side, Delete: s.delete, Shard: k, NShards: n, Keys: true}))
+					}
 				}
 			}
 			if tier == "thorough" {
